@@ -164,6 +164,10 @@ type Node07 struct {
 	Out    string `json:"out,omitempty"`    // lambda output type
 	Dyn    string `json:"dyn,omitempty"`    // dynamic type emitted when Out is an interface ("nil" allowed)
 	Branch string `json:"branch,omitempty"` // "" or the condition's input type: the connection to the next node is a branch
+	// Branch2 (only with Branch): a second branch on the same node with its own condition type; both choose the
+	// next node.  B2First: it is added before the first one.
+	Branch2 string `json:"branch2,omitempty"`
+	B2First bool   `json:"b2first,omitempty"`
 	PreH   string `json:"preh,omitempty"`   // "" or the pre-handler's value type
 	// Side (pass nodes whose incoming connection is a branch): a second predecessor.  The branch gets the
 	// lambda s<i> (In -> Out, Out an interface type) as its other target and s<i> -> x<i> is an edge; when
@@ -260,6 +264,13 @@ func genC07(t *rapid.T) CaseC07 {
 				n.Branch = ty("bt")
 			} else {
 				n.Branch = compat(cur)
+			}
+			if rapid.IntRange(0, 2).Draw(t, "branch2") == 0 {
+				n.Branch2 = compat(cur)
+				if rapid.IntRange(0, 9).Draw(t, "branch2Bad") == 0 {
+					n.Branch2 = ty("bt2")
+				}
+				n.B2First = rapid.Bool().Draw(t, "b2First")
 			}
 		}
 		c.Nodes = append(c.Nodes, n)
@@ -364,6 +375,27 @@ func build07[I, O any](c CaseC07) (run07, error) {
 			bt = c.Nodes[ci-1].Branch
 		}
 		var err error
+		bt2, b2first := "", false
+		if ci > 0 && bt != "" {
+			bt2, b2first = c.Nodes[ci-1].Branch2, c.Nodes[ci-1].B2First
+		}
+		addSecond := func() error {
+			if ci < k && c.Nodes[ci].Side != nil {
+				// both branches take the same decision (otherwise the pass-through node and the side lambda both run)
+				sk := fmt.Sprintf("s%d", ci)
+				pick := to
+				if c.Nodes[ci].Side.Pick {
+					pick = sk
+				}
+				return g.AddBranch(from, c07Branches[bt2](map[string]bool{to: true, sk: true}, pick))
+			}
+			return g.AddBranch(from, c07Branches[bt2](map[string]bool{to: true, "sink": true}, to))
+		}
+		if bt2 != "" && b2first {
+			if err := addSecond(); err != nil {
+				return nil, err
+			}
+		}
 		if bt != "" && ci < k && c.Nodes[ci].Side != nil {
 			sk := fmt.Sprintf("s%d", ci)
 			pick := to
@@ -378,6 +410,11 @@ func build07[I, O any](c CaseC07) (run07, error) {
 		}
 		if err != nil {
 			return nil, err
+		}
+		if bt2 != "" && !b2first {
+			if err := addSecond(); err != nil {
+				return nil, err
+			}
 		}
 	}
 	r, err := g.Compile(context.Background())
@@ -493,6 +530,7 @@ func checkC07(c CaseC07) (*vkit.Failure, vkit.Meta) {
 			want     string // type required by the position
 		}
 		declared := c.InT
+		producerOut := c.InT // output type of the nearest typed producer upstream (pass-through chains may carry it)
 		val := in
 		nilFlow := false
 		var firstBad *pos
@@ -500,6 +538,7 @@ func checkC07(c CaseC07) (*vkit.Failure, vkit.Meta) {
 		inferred := false
 		mayEdgeOK, mayEdgeBad := false, false
 		sideFed, sideAmbiguous := false, false
+		twoBranches := false
 		visit := func(p pos) {
 			if firstBad != nil {
 				return
@@ -531,6 +570,7 @@ func checkC07(c CaseC07) (*vkit.Failure, vkit.Meta) {
 				visit(pos{fmt.Sprintf("input of x%d", i), declared, n.In})
 				if firstBad == nil {
 					declared = n.Out
+					producerOut = n.Out
 					if isIface(n.Out) {
 						val = c07Value(n.Dyn)
 						if n.Dyn != "nil" && !assignable(val, n.Out) {
@@ -569,7 +609,7 @@ func checkC07(c CaseC07) (*vkit.Failure, vkit.Meta) {
 						if val == nil {
 							nilFlow = true
 						}
-						cands := []string{before}
+						cands := []string{before, producerOut}
 						incoming := c.StartB
 						if i > 0 {
 							incoming = c.Nodes[i-1].Branch
@@ -599,8 +639,25 @@ func checkC07(c CaseC07) (*vkit.Failure, vkit.Meta) {
 					}
 				}
 			}
+			if n.Branch != "" && n.Branch2 != "" {
+				// a pass-through node that is still untyped takes the type of the branch condition added first: with
+				// an interface-typed sibling branch the declared type in front of this condition may be that interface
+				d2 := declared
+				if n.Kind == "pass" && isIface(n.Branch) {
+					d2 = n.Branch
+				}
+				visit(pos{fmt.Sprintf("second branch condition after x%d", i), d2, n.Branch2})
+				twoBranches = true
+			}
 			if n.Branch != "" {
-				visit(pos{fmt.Sprintf("branch condition after x%d", i), declared, n.Branch})
+				d1 := declared
+				if n.Kind == "pass" && isIface(n.Branch2) {
+					d1 = n.Branch2
+				}
+				visit(pos{fmt.Sprintf("branch condition after x%d", i), d1, n.Branch})
+				if n.Kind == "pass" && isIface(n.Branch2) {
+					declared = n.Branch2
+				}
 				if n.Kind == "pass" && isIface(n.Branch) {
 					// a pass-through node that is still untyped when the branch is added takes the condition's
 					// type: downstream of it the declared type may be this interface (order dependent)
@@ -639,6 +696,9 @@ func checkC07(c CaseC07) (*vkit.Failure, vkit.Meta) {
 		}
 		if sideFed {
 			m.Labels = append(m.Labels, "passthrough-fed-over-interface-edge")
+		}
+		if twoBranches {
+			m.Labels = append(m.Labels, "two-branches-on-one-node")
 		}
 		if firstBad == nil && sideAmbiguous {
 			// the value fits everything downstream but not every type the pass-through node may have been given
